@@ -2,20 +2,18 @@
  'kind': 'proof', 'mode': 'legacy',
  'functions': ['ring_counter_init', 'ring_counter_get', 'ring_counter_fixup', 'ring_counter_set', 'ring_counter_increment'],
  'clauses': 'for every size in [1, INT_MAX]: init gives counter 0 and the size; get returns the counter and changes nothing; fixup/set/increment terminate (injected loop invariant + decreases), never write size, and leave 0 <= counter < size for every non-negative start value; a value already in range is kept, a value in [size, 2*size) is reduced by size: set(val) for 0 <= val < 2*size and increment(arg) for 0 <= arg <= size give the mathematical val mod size resp. (counter + arg) mod size (cyclic_buffer::push uses increment(1))',
- 'inject': [{'file': 'igris/datastruct/ring_counter.h', 'func': 'ring_counter_fixup', 'loop': 0, 'expect': 'rc->counter >= rc->size',
+ 'inject': [{'file': 'igris/datastruct/ring_counter.h', 'func': 'ring_counter_fixup', 'loop': 0, 'expect': 'rc->counter',
              'assigns': 'rc->counter',
-             'invariants': ['rc->counter <= g_c0 && (g_c0 >= 0 ==> rc->counter >= 0)',
-                            'g_c0 < rc->size ==> rc->counter == g_c0',
-                            '(g_c0 >= rc->size && g_c0 - rc->size < rc->size) ==> (rc->counter == g_c0 || rc->counter == g_c0 - rc->size)'],
-             'decreases': 'rc->counter'},
-            {'file': 'igris/datastruct/ring_counter.h', 'func': 'ring_counter_fixup', 'ghost': 'g_c0 = rc->counter;', 'at': 'func-begin'}],
+             'invariants': ['rc->counter <= __CPROVER_loop_entry(rc->counter) && (__CPROVER_loop_entry(rc->counter) >= 0 ==> rc->counter >= 0)',
+                            '__CPROVER_loop_entry(rc->counter) < rc->size ==> rc->counter == __CPROVER_loop_entry(rc->counter)',
+                            '(__CPROVER_loop_entry(rc->counter) >= rc->size && __CPROVER_loop_entry(rc->counter) - rc->size < rc->size) ==> (rc->counter == __CPROVER_loop_entry(rc->counter) || rc->counter == __CPROVER_loop_entry(rc->counter) - rc->size)'],
+             'decreases': 'rc->counter'}],
  'assumptions': ['RC(rc): 1 <= size, 0 <= counter < size (size 0 makes the fix-up loop spin forever; cyclic_buffer passes its element count)',
                  'ring_counter_set: val >= 0; ring_counter_increment: arg >= 0 and counter + arg <= INT_MAX (signed overflow otherwise): negative values are left negative by ring_counter_fixup, the only caller passes 1'],
  'witness': {'unwind': 8},
 } @*/
 #include "c03_ring.h"
 #include <limits.h>
-int g_c0; /* ghost: counter on entry of ring_counter_fixup */
 #include <igris/datastruct/ring_counter.h>
 
 #define RC_INV(rc) ((rc).size >= 1 && (rc).counter >= 0 && (rc).counter < (rc).size)
